@@ -1,6 +1,6 @@
 //! C12 — TLS: servers are authenticated unless the caller explicitly opts out.
 //! A finite fault matrix, enumerated completely on every run: client {blocking, async} x ignore flag {unset, false,
-//! true} x extra roots {none, correct PEM, correct DER, unrelated PEM} x server identity {valid, wrong host, expired,
+//! true} x extra roots {none, correct PEM, correct DER, unrelated PEM, unrelated then correct PEM, correct DER then unrelated} x server identity {valid, wrong host, expired,
 //! self-signed, unknown CA} x URI host {localhost, 127.0.0.1}, per TLS backend (one harness build each), against
 //! an in-process rustls server on loopback with committed fixture identities.
 
@@ -53,6 +53,10 @@ pub enum Roots {
     CorrectPem,
     CorrectDer,
     UnrelatedPem,
+    /// two ca_cert() calls: an unrelated root first, the correct one (PEM) second
+    UnrelatedThenCorrectPem,
+    /// two ca_cert() calls: the correct root (DER) first, an unrelated one second
+    CorrectDerThenUnrelated,
 }
 #[derive(Clone, Copy, Debug, PartialEq, Eq, Serialize, Deserialize, PartialOrd, Ord)]
 pub enum Identity {
@@ -82,7 +86,7 @@ impl Cell {
         let mut v = Vec::new();
         for client in [Client::Blocking, Client::Async] {
             for flag in [Flag::Unset, Flag::False, Flag::True] {
-                for roots in [Roots::None, Roots::CorrectPem, Roots::CorrectDer, Roots::UnrelatedPem] {
+                for roots in [Roots::None, Roots::CorrectPem, Roots::CorrectDer, Roots::UnrelatedPem, Roots::UnrelatedThenCorrectPem, Roots::CorrectDerThenUnrelated] {
                     for identity in [Identity::Valid, Identity::WrongHost, Identity::Expired, Identity::SelfSigned, Identity::UnknownCa] {
                         for host in [Host::Localhost, Host::Ip] {
                             v.push(Cell { client, flag, roots, identity, host });
@@ -96,7 +100,7 @@ impl Cell {
     /// the statement: accept iff the caller opted out, or the certificate is valid for the host and chains to a
     /// root supplied through the builder
     pub fn must_accept(&self) -> bool {
-        self.flag == Flag::True || (self.identity == Identity::Valid && matches!(self.roots, Roots::CorrectPem | Roots::CorrectDer))
+        self.flag == Flag::True || (self.identity == Identity::Valid && matches!(self.roots, Roots::CorrectPem | Roots::CorrectDer | Roots::UnrelatedThenCorrectPem | Roots::CorrectDerThenUnrelated))
     }
     pub fn describe(&self) -> String {
         format!(
@@ -105,7 +109,7 @@ impl Cell {
             store_label(),
             match self.client { Client::Blocking => "blocking", Client::Async => "async" },
             match self.flag { Flag::Unset => "unset", Flag::False => "false", Flag::True => "true" },
-            match self.roots { Roots::None => "none", Roots::CorrectPem => "pem", Roots::CorrectDer => "der", Roots::UnrelatedPem => "unrelated" },
+            match self.roots { Roots::None => "none", Roots::CorrectPem => "pem", Roots::CorrectDer => "der", Roots::UnrelatedPem => "unrelated", Roots::UnrelatedThenCorrectPem => "unrelated+pem", Roots::CorrectDerThenUnrelated => "der+unrelated" },
             match self.identity { Identity::Valid => "valid", Identity::WrongHost => "wronghost", Identity::Expired => "expired", Identity::SelfSigned => "selfsigned", Identity::UnknownCa => "unknownca" },
             match self.host { Host::Localhost => "localhost", Host::Ip => "ip" },
         )
@@ -248,11 +252,13 @@ pub fn run_cell(cell: &Cell, seed: u64) -> CellResult {
     };
     let scheme = if rng.chance(1, 2) { "ipps" } else { "https" };
     let uri: Uri = format!("{scheme}://{host}:{}/printers/tls", printer.port).parse().expect("uri");
-    let roots: Option<Vec<u8>> = match cell.roots {
-        Roots::None => None,
-        Roots::CorrectPem => Some(fixture("testca.cert.pem")),
-        Roots::CorrectDer => Some(fixture("testca.cert.der")),
-        Roots::UnrelatedPem => Some(fixture("unrelated.cert.pem")),
+    let roots: Vec<Vec<u8>> = match cell.roots {
+        Roots::None => vec![],
+        Roots::CorrectPem => vec![fixture("testca.cert.pem")],
+        Roots::CorrectDer => vec![fixture("testca.cert.der")],
+        Roots::UnrelatedPem => vec![fixture("unrelated.cert.pem")],
+        Roots::UnrelatedThenCorrectPem => vec![fixture("unrelated.cert.pem"), fixture("testca.cert.pem")],
+        Roots::CorrectDerThenUnrelated => vec![fixture("testca.cert.der"), fixture("unrelated.cert.der")],
     };
     let request = |uri: &Uri| IppOperationBuilder::get_printer_attributes(uri.clone()).build();
     let outcome: Result<Result<Outcome, String>, String> = match cell.client {
@@ -263,7 +269,7 @@ pub fn run_cell(cell: &Cell, seed: u64) -> CellResult {
                 Flag::False => b = b.ignore_tls_errors(false),
                 Flag::True => b = b.ignore_tls_errors(true),
             }
-            if let Some(r) = &roots {
+            for r in &roots {
                 b = b.ca_cert(r);
             }
             let client = b.build();
@@ -279,7 +285,7 @@ pub fn run_cell(cell: &Cell, seed: u64) -> CellResult {
                 Flag::False => b = b.ignore_tls_errors(false),
                 Flag::True => b = b.ignore_tls_errors(true),
             }
-            if let Some(r) = &roots {
+            for r in &roots {
                 b = b.ca_cert(r);
             }
             let client = b.build();
@@ -508,7 +514,7 @@ fn write_evidence(tier: Tier, seed: u64, results: &[Value], wall: f64, violation
             "evaluations": results.len(),
             "distinct_nontrivial": distinct_reject.len(),
             "distinct_cells": distinct.len(),
-            "rule": "Complete enumeration of the matrix client {blocking, async} x ignore flag {unset, false, true} x extra roots {none, correct PEM, correct DER, unrelated PEM} x server identity {valid, wrong host (SAN printer.invalid), expired (2020-01..2020-02), self-signed leaf, signed by an unknown CA} x URI host {localhost, 127.0.0.1} = 240 cells per TLS backend, for both backends (native-tls and rustls; one harness build each), each once with the machine's trust store and once with an EMPTY system trust store (SSL_CERT_FILE / SSL_CERT_DIR pointed at empty fixtures; a separate process because the stores are cached per process) = 960 real handshakes per repetition (quick: 1 repetition, thorough: 3 with different seeds) against an in-process rustls server on loopback; the seed permutes the order and draws the request/response. Oracle: accept iff flag == true or (identity == valid and roots in {PEM, DER}); accept => Ok and response equal to the scripted one; reject => Err and the server application received 0 bytes after the handshake. distinct_nontrivial = distinct must-reject cells executed (the fault cells); distinct_cells = all distinct cells.",
+            "rule": "Complete enumeration of the matrix client {blocking, async} x ignore flag {unset, false, true} x extra roots {none, correct PEM, correct DER, unrelated PEM, unrelated then correct PEM, correct DER then unrelated} x server identity {valid, wrong host (SAN printer.invalid), expired (2020-01..2020-02), self-signed leaf, signed by an unknown CA} x URI host {localhost, 127.0.0.1} = 360 cells per TLS backend, for both backends (native-tls and rustls; one harness build each), each once with the machine's trust store and once with an EMPTY system trust store (SSL_CERT_FILE / SSL_CERT_DIR pointed at empty fixtures; a separate process because the stores are cached per process) = 1440 real handshakes per repetition (quick: 1 repetition, thorough: 3 with different seeds) against an in-process rustls server on loopback; the seed permutes the order and draws the request/response. Oracle: accept iff flag == true or (identity == valid and the correct root is among those supplied through the builder); accept => Ok and response equal to the scripted one; reject => Err and the server application received 0 bytes after the handshake. distinct_nontrivial = distinct must-reject cells executed (the fault cells); distinct_cells = all distinct cells.",
             "exhaustive": true,
             "samples": samples,
             "fired": fired,
